@@ -59,7 +59,7 @@ def make_instance(knobs=None, src=None, extra=()):
 
 
 def make_kernel(G, **kw):
-    k = kernel.Kernel(cat=catalogue.Catalogue(G), trace_dir=G.src_dir, **kw)
+    k = kernel.Kernel(cat=catalogue.Catalogue(G), trace_dir=G.src_dir, shim=getattr(G, 'sim_threading', None), **kw)
     return k
 
 
